@@ -30,6 +30,10 @@ class Site:
 
 
 def in_scope(b):
+    if b.bkind == "const":
+        # the initialiser of a const / static / inline const is evaluated by the compiler: an overflow or a failed unwrap in
+        # it is a build error (E0080), never a panic of the running instrument
+        return False
     if any(t in (b.impl_trait or "") for t in SKIP_IMPL_TRAITS):
         return False
     return True
